@@ -511,6 +511,9 @@ class Engine:
             self.pos = 0
             self.model = None
             self.vars = {}
+            self.decided = {}
+            self.decided_true = set()
+            self._keep = []   # keeps decided terms alive so that ids are not reused
 
     # -- inputs -----------------------------------------------------------
     def fresh_int(self, name, lo=None, hi=None, real=False):
@@ -593,20 +596,29 @@ class Engine:
         if self.mode == "conc":  # pragma: no cover - symbolic terms never exist here
             raise EngineFault("symbolic branch in concrete mode")
         self.stats["branches"] += 1
+        # a condition already decided on this path needs neither a trail entry
+        # nor a solver call (z3 terms are hash-consed: same id = same term)
+        eid = e.get_id()
+        d = self.decided.get(eid)
+        if d is not None:
+            return d
+        self._keep.append(e)
         if self.pos < len(self.trail):
             d = self.trail[self.pos][0]
             self.pos += 1
             self._add(e if d else z3.Not(e))
+            self.decided[eid] = d
             return d
-        e = z3.simplify(e)
-        if z3.is_true(e) or z3.is_false(e):
-            d = z3.is_true(e)
+        se = z3.simplify(e)
+        if z3.is_true(se) or z3.is_false(se):
+            d = z3.is_true(se)
             self.trail.append([d, 1])
             self.pos += 1
+            self.decided[eid] = d
             return d
         m = self._ensure_model()
-        d = z3.is_true(m.eval(e, model_completion=True))
-        other = z3.Not(e) if d else e
+        d = z3.is_true(m.eval(se, model_completion=True))
+        other = z3.Not(se) if d else se
         ok, m2 = self._feasible(other)
         if ok:
             self.trail.append([d, 2])
@@ -614,7 +626,8 @@ class Engine:
         else:
             self.trail.append([d, 1])
         self.pos += 1
-        self.solver.add(e if d else z3.Not(e))
+        self.solver.add(se if d else z3.Not(se))
+        self.decided[eid] = d
         return d
 
     def assume(self, cond):
@@ -702,6 +715,9 @@ class Engine:
             else:
                 self.stats["proved_trivial"] += 1
             return bool(cond)
+        if cond.e.get_id() in self.decided_true:
+            self.stats["proved"] += 1
+            return True
         e = z3.simplify(cond.e)
         if z3.is_true(e):
             self.stats["proved_trivial"] += 1
@@ -716,6 +732,8 @@ class Engine:
                                              list(self.choice_log)))
             return False
         self.stats["proved"] += 1
+        self.decided_true.add(cond.e.get_id())
+        self._keep.append(cond.e)
         return True
 
     def prove_all(self, items):
@@ -727,6 +745,10 @@ class Engine:
                 self.prove(c, k, d)
             return
         allc = vand([c for c, _, _ in items])
+        if isinstance(allc, SBool) and allc.e.get_id() in self.decided_true:
+            self.stats["obligations"] += len(items)
+            self.stats["proved"] += len(items)
+            return
         if isinstance(allc, SBool):
             e = z3.simplify(allc.e)
             if z3.is_true(e):
@@ -737,6 +759,8 @@ class Engine:
             if not ok:
                 self.stats["obligations"] += len(items)
                 self.stats["proved"] += len(items)
+                self.decided_true.add(allc.e.get_id())
+                self._keep.append(allc.e)
                 return
         elif allc:
             self.stats["obligations"] += len(items)
@@ -772,6 +796,9 @@ class Engine:
             self.pos = 0
             self.model = None
             self.vars = {}
+            self.decided = {}
+            self.decided_true = set()
+            self._keep = []
             self.obs, self.choice_log = [], []
             aborted = False
             try:
